@@ -9,6 +9,7 @@ FE = "src/evaluator/flop_exhaustive.rs"
 CP = "src/hand_range/card_pair.rs"
 TK = "src/hand_range/hand_range_token.rs"
 HRS = "src/hand_range/hand_range.rs"
+RP = "src/hand_range/rank_pair.rs"
 RK = "src/card/rank.rs"
 ST = "src/card/suit.rs"
 CD = "src/card/card.rs"
@@ -78,6 +79,50 @@ MUTANTS = [
     M("c09-range-unordered", ["C09"], (HRS, "for kicker_rank in RankRange::inclusive(high_rank, Rank::Deuce) {", "for kicker_rank in RankRange::inclusive(high_rank, high_rank.prev().unwrap_or(Rank::Deuce)) {")),
     M("benign-c09-unanchored-end", ["C09"], (TK, 'Regex::new(r"^[AKQJT98765432]{2}(:[01](\\.[0-9]+)?)?$").unwrap();', 'Regex::new(r"^[AKQJT98765432]{2}(:[01](\\.[0-9]+)?)?").unwrap();'), benign=True),
     M("benign-c09-is-char-boundary-free", ["C09"], (CD, "if v.len() == 2 && v.is_ascii() {", "if v.is_ascii() && v.len() == 2 {"), benign=True),
+    M("c10-weight-wider", ["C10"], (TK, 'Regex::new(r"^[AKQJT98765432]{2}[so](:(0(\\.[0-9]+)?|1(\\.0+)?))?$").unwrap();', 'Regex::new(r"^[AKQJT98765432]{2}[so](:([01](\\.[0-9]+)?))?$").unwrap();')),
+    M("c10-weight-two-digits", ["C10"], (TK, 'Regex::new(r"^[AKQJT98765432]{2}(:(0(\\.[0-9]+)?|1(\\.0+)?))?$").unwrap();', 'Regex::new(r"^[AKQJT98765432]{2}(:(0[0-9]?(\\.[0-9]+)?|1(\\.0+)?))?$").unwrap();')),
+    M("c10-weight-exponent", ["C10"], (TK, 'Regex::new(r"^[AKQJT98765432]{2}(:(0(\\.[0-9]+)?|1(\\.0+)?))?$").unwrap();', 'Regex::new(r"^[AKQJT98765432]{2}(:(0(\\.[0-9]+)?(e[0-9])?|1(\\.0+)?))?$").unwrap();')),
+    M("c10-distinct-removed", ["C10"], (TK, "                if card_pair[0] != card_pair[1] {", "                if card_pair[0] != card_pair[1] || true {")),
+    M("c10-suited-same-rank", ["C10"], (TK, "        if single_rank_pair_regex.is_match(s) && s[0..1] != s[1..2] {", "        if single_rank_pair_regex.is_match(s) {")),
+    M("c10-default-2", ["C10"], (TK, "    f32::from_str(value).unwrap_or(1.0)", "    f32::from_str(value).unwrap_or(2.0)")),
+    M("c10-weight-offset", ["C10", "C05"], (TK, "                        HandRangeTokenKind::SingleRankPair(RankPair::Suited(high, kicker)),\n                        parse_probability(&s[3..]),", "                        HandRangeTokenKind::SingleRankPair(RankPair::Suited(high, kicker)),\n                        parse_probability(&s[2..]),")),
+    M("benign-c10-weight-equiv", ["C10"], (TK, 'Regex::new(r"^[AKQJT98765432]{2}(:(0(\\.[0-9]+)?|1(\\.0+)?))?$").unwrap();', 'Regex::new(r"^[AKQJT98765432]{2}(:(1(\\.0+)?|0(\\.[0-9]+)?))?$").unwrap();'), benign=True),
+    M("c05-regex-lost-T", ["C05"], (TK, 'Regex::new(r"^[AKQJT98765432]{2}\\+(:', 'Regex::new(r"^[AKQJ98765432]{2}\\+(:')),
+    M("c05-wrong-rank-pos", ["C05"], (TK, "                Rank::from_str(&s[5..6]),", "                Rank::from_str(&s[4..5]),")),
+    M("c05-exclusive-range", ["C05"], (TK, "                RankPair::Pocket(rank) => RankRange::inclusive(rank, end)", "                RankPair::Pocket(rank) => RankRange::new(rank, end)")),
+    M("c05-expansion-wrong-start", ["C05"], (TK, "                RankPair::Suited(high, kicker) => {\n                    RankRange::inclusive(high.next().unwrap(), kicker)", "                RankPair::Suited(high, kicker) => {\n                    RankRange::inclusive(high.next().unwrap().next().unwrap_or(kicker), kicker)")),
+    M("c05-combo-dup", ["C05", "C12"], (RP, "                CardPair::new(\n                    Card::new(high, Suit::Club),\n                    Card::new(kicker, Suit::Diamond),\n                ),", "                CardPair::new(\n                    Card::new(high, Suit::Club),\n                    Card::new(kicker, Suit::Heart),\n                ),")),
+    M("c05-suited-ofsuit-swapped", ["C05"], (TK, """                if &s[2..3] == "s" {
+                    return Ok(HandRangeToken::new(
+                        HandRangeTokenKind::SingleRankPair(RankPair::Suited(high, kicker)),""", """                if &s[2..3] == "o" {
+                    return Ok(HandRangeToken::new(
+                        HandRangeTokenKind::SingleRankPair(RankPair::Suited(high, kicker)),""")),
+    M("c05-split-rev", ["C05"], (HRS, 'let haystacks = trimmed.split(",");', 'let haystacks = trimmed.rsplit(",");')),
+    M("c05-weight-ignored", ["C05"], (TK, "                std::iter::once((card_pair, self.probability))", "                std::iter::once((card_pair, 1.0))")),
+    M("c05-ofsuit-built-as-suited", ["C05"], (TK, """                        .flat_map(|r| {
+                            RankPair::Ofsuit(high, r)
+                                .into_iter()
+                                .map(|cp| (cp, self.probability))
+                        })
+                        .collect::<Vec<(CardPair, f32)>>()
+                        .into_iter()
+                }
+            },""", """                        .flat_map(|r| {
+                            RankPair::Suited(high, r)
+                                .into_iter()
+                                .map(|cp| (cp, self.probability))
+                        })
+                        .collect::<Vec<(CardPair, f32)>>()
+                        .into_iter()
+                }
+            },""")),
+    M("c05-eq-dropped", ["C05"], (TK, "        if bottom_closed_pocket_pair_range_regex.is_match(s) && s[0..1] == s[1..2] {", "        if bottom_closed_pocket_pair_range_regex.is_match(s) {")),
+    M("c12-probe-not-member", ["C12"], (HRS, "                    CardPair::new(Card::new(high, Suit::Spade), Card::new(kicker, Suit::Heart));", "                    CardPair::new(Card::new(high, Suit::Spade), Card::new(kicker, Suit::Spade));")),
+    M("c12-all-over-other-pair", ["C12"], (HRS, "                    if ofsuit\n                        .into_iter()", "                    if RankPair::Suited(high, kicker)\n                        .into_iter()")),
+    M("c12-domain-short", ["C12"], (HRS, "        for high in RankRange::inclusive(Rank::Ace, Rank::Trey) {\n            for kicker in RankRange::inclusive(high.next().unwrap(), Rank::Deuce) {\n                let example_suited", "        for high in RankRange::inclusive(Rank::Ace, Rank::Four) {\n            for kicker in RankRange::inclusive(high.next().unwrap(), Rank::Deuce) {\n                let example_suited")),
+    M("c12-weight-not-compared", ["C12"], (HRS, "                    .all(|cp| self.0.get(&cp).is_some_and(|p| p == probability))\n                {\n                    rank_pairs.insert(pocket, *probability);", "                    .all(|cp| self.0.get(&cp).is_some_and(|p| p <= probability))\n                {\n                    rank_pairs.insert(pocket, *probability);")),
+    M("c12-orphan-skip", ["C12"], (HRS, "            for card_pair in rank_pair {\n                clone.remove(&card_pair);", "            for card_pair in rank_pair.into_iter().skip(1) {\n                clone.remove(&card_pair);")),
+    M("c12-reported-weight-const", ["C12"], (HRS, "                    rank_pairs.insert(pocket, *probability);", "                    rank_pairs.insert(pocket, 1.0);")),
     M("c08-recursion", ["C08"], (FE, """        loop {
             if let Some(showdown) = self.next_deal()? {
                 return Some(showdown);
